@@ -133,8 +133,10 @@ fn run_with2<const N: usize>(perm: [u8; N], shutting_down: bool) -> ([u8; N], bo
         i += 1;
     }
     let arrivals: [(u64, RecBuf); N] = std::array::from_fn(|j| (perm[j] as u64, RecBuf { epoch: perm[j] }));
-    drive_reorder_buffer(&RecDb, arrivals, shutting_down);
+    let delivered = drive_reorder_buffer(&RecDb, arrivals, shutting_down);
     unsafe {
+        // under Kani the stub of `Sender::send` counts; in a native replay the real channel does
+        QV_NOTIFIED += delivered;
         // C10: exactly once, in creation order, all durable when the committer returns
         assert!(QV_LOG_LEN == N, "every submitted batch reached the store exactly once");
         let mut j = 0;
